@@ -8,7 +8,7 @@ drivers, so every generated scenario is a valid program.
 import random
 
 SIGS = [-2, -5, -4, -7, 3, 11]          # interrupt / timer / resume signals (never 0 = SUCCESS)
-PROFILES = ["resource", "pool", "buffer", "oq", "pq", "cond", "lifecycle", "timers", "mixed", "crowd", "record", "poolprio", "condcrowd", "condfwd", "evgrow", "prioq", "record2"]
+PROFILES = ["resource", "pool", "buffer", "oq", "pq", "cond", "lifecycle", "timers", "mixed", "crowd", "record", "poolprio", "condcrowd", "condfwd", "evgrow", "prioq", "record2", "pqreprio"]
 
 
 def gen_scenario(rng, profile=None, size=None, exclude=frozenset()):
@@ -198,6 +198,36 @@ def gen_scenario(rng, profile=None, size=None, exclude=frozenset()):
             if held and rng.random() < 0.5:
                 cmds.append("prel 1 1")
             out += ["proc %d 1 %d" % (rng.randint(0, 3), len(cmds))] + cmds
+        return out, {"profile": profile, "procs": 2, "lines": len(out)}
+    if profile == "pqreprio":
+        # a priority queue with very few objects: reprioritise / position / cancel by handle at every population from 0 to 3,
+        # then put objects whose priorities fall between the old and the new value, and drain
+        out = ["pq %s" % rng.choice([3, 4, "U"])]
+        cmds = []
+        live = []            # variables holding handles of objects believed queued
+        for _ in range(rng.randint(4, 14)):
+            r = rng.random()
+            free = [v for v in range(4, 8) if v not in live]
+            if (r < 0.35 or not live) and free and len(live) < 3:
+                v = rng.choice(free)
+                cmds.append("kput 0 %d %d %d" % (rng.randint(1, 9), rng.choice([0, 1, 3, 5, 8, -2]), v))
+                live.append(v)
+            elif r < 0.65 and live:
+                cmds.append("kreprio 0 %d %d" % (rng.choice(live), rng.choice([0, 2, 4, 7, 9, -3])))
+            elif r < 0.8 and live:
+                cmds.append("kpos 0 %d" % rng.choice(live))
+            elif r < 0.9 and live:
+                v = rng.choice(live)
+                cmds.append("kcancel 0 %d" % v)
+                live.remove(v)
+            else:
+                cmds.append("kget 0")
+                live = live[1:] if rng.random() < 0.5 else live      # which one left is not tracked: stale handles are skipped by the driver
+        cmds += ["kpos 0 %d" % v for v in range(4, 8)] + ["kget 0"] * 3
+        out += ["proc %d 1 %d" % (rng.randint(0, 3), len(cmds))] + cmds
+        if rng.random() < 0.4:
+            c2 = ["hold %d" % rng.randint(0, 1), "kget 0", "hold 1", "kget 0"]
+            out += ["proc %d 1 %d" % (rng.randint(0, 3), len(c2))] + c2
         return out, {"profile": profile, "procs": 2, "lines": len(out)}
     if profile == "evgrow":
         # many processes wait for one user event; a filler arms k timers so that the event queue is at a growth threshold
